@@ -35,15 +35,16 @@ theorem be16_toNat {n : Nat} (h : n < 65536) : (u8 (n / 256)).toNat * 256 + (u8 
   simp only [u8_toNat_mod]; omega
 
 theorem addPath_step (acc : List (Nat × Nat × Nat)) (a s d : Nat) (rest : Bytes)
-    (hk : (a, s) ∈ afiSafiKnown) (h1 : 1 ≤ d) (h3 : d ≤ 3) (hl : rest.length % 4 = 0) :
-    addPathLoop acc (be16 a ++ be8 s ++ be8 d ++ rest) = addPathLoop (acc ++ [(a, s, d)]) rest := by
-  have hafi : a < 65536 := by simp [afiSafiKnown] at hk; omega
-  have hsafi : s < 256 := by simp [afiSafiKnown] at hk; omega
+    (hafi : a < 65536) (hsafi : s < 256) (hd : d < 256) (hl : rest.length % 4 = 0) :
+    addPathLoop acc (be16 a ++ be8 s ++ be8 d ++ rest) =
+      addPathLoop (if Spec.addPathKnown (a, s, d) then acc ++ [(a, s, d)] else acc) rest := by
   simp only [be16, be8, List.cons_append, List.nil_append]
   rw [addPathLoop]
   have : (u8 (a / 256) :: u8 a :: u8 s :: u8 d :: rest).length % 4 = 0 := by simp; omega
-  rw [if_pos this, be16_toNat hafi, u8_toNat hsafi, u8_toNat (show d < 256 by omega)]
-  rw [if_pos ⟨hk, h1, h3⟩]
+  rw [if_pos this, be16_toNat hafi, u8_toNat hsafi, u8_toNat hd]
+  by_cases hk : (a, s) ∈ afiSafiKnown ∧ 1 ≤ d ∧ d ≤ 3
+  · rw [if_pos hk, if_pos (by simpa [Spec.addPathKnown] using hk)]
+  · rw [if_neg hk, if_neg (by simpa [Spec.addPathKnown] using hk)]
 
 theorem addPath_flat_len (l : List (Nat × Nat × Nat)) :
     (l.flatMap fun t => be16 t.1 ++ be8 t.2.1 ++ be8 t.2.2).length = 4 * l.length := by
@@ -52,8 +53,8 @@ theorem addPath_flat_len (l : List (Nat × Nat × Nat)) :
   | cons x r ih => rw [List.flatMap_cons, List.length_append, ih]; simp; omega
 
 theorem addPathLoop_enc (l : List (Nat × Nat × Nat)) :
-    ∀ acc, (∀ t ∈ l, (t.1, t.2.1) ∈ afiSafiKnown ∧ 1 ≤ t.2.2 ∧ t.2.2 ≤ 3) →
-      addPathLoop acc (l.flatMap fun t => be16 t.1 ++ be8 t.2.1 ++ be8 t.2.2) = .ok (acc ++ l) := by
+    ∀ acc, (∀ t ∈ l, t.1 < 65536 ∧ t.2.1 < 256 ∧ t.2.2 < 256) →
+      addPathLoop acc (l.flatMap fun t => be16 t.1 ++ be8 t.2.1 ++ be8 t.2.2) = .ok (acc ++ l.filter Spec.addPathKnown) := by
   induction l with
   | nil => intro acc _; simp [addPathLoop]
   | cons t r ih =>
@@ -61,8 +62,10 @@ theorem addPathLoop_enc (l : List (Nat × Nat × Nat)) :
     obtain ⟨hk, h1, h3⟩ := h t (by simp)
     rw [List.flatMap_cons]
     rw [addPath_step acc t.1 t.2.1 t.2.2 _ hk h1 h3 (by rw [addPath_flat_len]; omega)]
-    rw [ih (acc ++ [(t.1, t.2.1, t.2.2)]) (fun y hy => h y (by simp [hy]))]
-    simp
+    rw [ih _ (fun y hy => h y (by simp [hy]))]
+    by_cases hkn : Spec.addPathKnown (t.1, t.2.1, t.2.2) = true
+    · rw [if_pos hkn, List.filter_cons_of_pos (by simpa using hkn)]; simp
+    · rw [if_neg hkn, List.filter_cons_of_neg (by simpa using hkn)]
 
 theorem llgr_step (acc : List (Nat × Nat × Nat)) (a s f t : Nat) (rest : Bytes)
     (h1 : a < 65536) (h2 : s < 256) (h4 : t < 16777216) :
